@@ -230,6 +230,9 @@ type c06Env struct {
 	core  zapcore.Core
 }
 
+// c06CoreHookRuns counts the runs of the core-level hook of the tee-hooked-* compositions during one case.
+var c06CoreHookRuns int
+
 func c06Core(cfg c06Config, ws zapcore.WriteSyncer) (zapcore.Core, *observer.ObservedLogs) {
 	th := zapcore.Level(cfg.Threshold)
 	enab := zap.LevelEnablerFunc(func(l zapcore.Level) bool { return l >= th })
@@ -248,6 +251,14 @@ func c06Core(cfg c06Config, ws zapcore.WriteSyncer) (zapcore.Core, *observer.Obs
 		return zapcore.NewTee(jc, oc), logs
 	case "teeobs":
 		return zapcore.NewTee(oc, jc), logs
+	case "tee-hooked-last", "tee-hooked-first":
+		// the observing branch is a HOOKED core (an alerting hook, say): wherever it is listed, it is an accepting core
+		// like any other and its hooks run for every entry it accepts - the final one included
+		hc := zapcore.RegisterHooks(oc, func(zapcore.Entry) error { c06CoreHookRuns++; return nil })
+		if cfg.Core == "tee-hooked-first" {
+			return zapcore.NewTee(hc, jc), logs
+		}
+		return zapcore.NewTee(jc, hc), logs
 	case "nop":
 		return zapcore.NewNopCore(), nil
 	case "sampleout":
@@ -299,7 +310,7 @@ var c06Mu sync.Mutex // exit stub and globals are process-wide
 
 func propC06(t *rapid.T) {
 	cfg := c06Config{
-		Core:      rapid.SampledFrom([]string{"json", "tee", "teeobs", "nop", "sampleout", "increase"}).Draw(t, "core"),
+		Core:      rapid.SampledFrom([]string{"json", "tee", "teeobs", "nop", "sampleout", "increase", "tee-hooked-last", "tee-hooked-first"}).Draw(t, "core"),
 		Threshold: rapid.IntRange(-1, 7).Draw(t, "threshold"),
 		Dev:       rapid.Bool().Draw(t, "development"),
 		Hook:      rapid.SampledFrom([]string{"default", "nil", "noop", "goexit", "custom", "custom-value"}).Draw(t, "hook"),
@@ -368,6 +379,7 @@ func c06RunInProcess(t interface{ Fatalf(string, ...any) }, cfg c06Config) {
 		defer bws.Stop()
 		ws = bws
 	}
+	c06CoreHookRuns = 0
 	core, logs := c06Core(cfg, ws)
 	opts := []zap.Option{zap.ErrorOutput(&memSink{})}
 	if cfg.Dev {
@@ -494,6 +506,9 @@ func c06RunInProcess(t interface{ Fatalf(string, ...any) }, cfg c06Config) {
 	}
 
 	desc := fmt.Sprintf("%+v", cfg)
+	if strings.HasPrefix(cfg.Core, "tee-hooked") && c06CoreHookRuns != obsNow {
+		t.Fatalf("%s: the hooked branch of the tee accepted %d entries and its hooks ran %d times", desc, obsNow, c06CoreHookRuns)
+	}
 	// which action is expected
 	kind := "none"
 	if wantTerm {
